@@ -267,3 +267,17 @@ pub fn c14_next_k4<S: Src>(s: &mut S) {
 pub fn c14_next_k5<S: Src>(s: &mut S) {
     c14_next_k(s, 5, false)
 }
+
+/// Native-only oracle used to validate the MIR -> SMT translation of
+/// `Member::can_change` (engine E4): tape = self state, self incarnation, update
+/// incarnation, update state, expected answer.
+pub fn e4_can_change<S: Src>(s: &mut S) {
+    let st = arb_state(s);
+    let inc = s.u16();
+    let oinc = s.u16();
+    let ost = arb_state(s);
+    let expected = s.bool();
+    let mut m = Member::new(Id::new(1, 1), inc, st);
+    let got = m.change_state(oinc, ost);
+    vassert!(got == expected, "e4: SMT encoding of can_change agrees with the real function");
+}
